@@ -1632,9 +1632,34 @@ func (fr *Frame) loopEntry(b *ssa.BasicBlock, phis []*ssa.Phi, preds []*ssa.Basi
 		}
 		st.worlds = fc.B.Define("W_loop", "(Array Int WorldS)", w)
 	}
+	heapsBefore := map[string]string{}
 	for hs := range mods.heaps {
 		// keep allocations made inside the loop out of the frame: havoc the whole heap of that sort
+		heapsBefore[hs] = st.heaps[hs]
 		st.heaps[hs] = fc.B.Fresh("H_loop", "(Array Int "+hs+")")
+	}
+	if !mods.all {
+		// frame refinement: a local cell of this function that never escapes (only loaded from, stored to
+		// directly, or addressed by field/element) and has no store inside the loop body keeps its content.
+		for _, blk := range fr.fn.Blocks {
+			if body[blk.Index] != nil {
+				continue
+			}
+			for _, in := range blk.Instrs {
+				a, ok := in.(*ssa.Alloc)
+				if !ok || a.Heap {
+					continue
+				}
+				p, ok := fr.vals[a]
+				if !ok || p.VA != nil || p.S != "Int" {
+					continue
+				}
+				hs := fc.B.SortOf(a.Type().Underlying().(*types.Pointer).Elem())
+				if before, ok := heapsBefore[hs]; ok && before != "" && cellStableIn(a, body) {
+					fc.B.Assert("(= (select " + st.heaps[hs] + " " + p.T + ") (select " + before + " " + p.T + "))")
+				}
+			}
+		}
 	}
 	if mods.all {
 		st.worlds = fc.B.Fresh("W_loop", "(Array Int WorldS)")
@@ -1673,6 +1698,39 @@ func (fr *Frame) loopEntry(b *ssa.BasicBlock, phis []*ssa.Phi, preds []*ssa.Basi
 	}
 }
 
+// cellStableIn: the cell behind address a is only read, stored to directly, or addressed by field/element, and
+// none of those stores is inside the given loop body.
+func cellStableIn(a ssa.Value, body map[int]*ssa.BasicBlock) bool {
+	refs := a.Referrers()
+	if refs == nil {
+		return false
+	}
+	for _, r := range *refs {
+		switch x := r.(type) {
+		case *ssa.DebugRef:
+		case *ssa.UnOp:
+			if x.Op != token.MUL {
+				return false
+			}
+		case *ssa.Store:
+			if x.Addr != a || x.Val == a || body[x.Block().Index] != nil {
+				return false
+			}
+		case *ssa.FieldAddr:
+			if x.X != a || !cellStableIn(x, body) {
+				return false
+			}
+		case *ssa.IndexAddr:
+			if x.X != a || !cellStableIn(x, body) {
+				return false
+			}
+		default:
+			return false
+		}
+	}
+	return true
+}
+
 func clauseName(c Clause, i int) string {
 	if c.Label != "" {
 		return c.Label
@@ -1688,6 +1746,16 @@ func (fr *Frame) invEnv(b *ssa.BasicBlock, phis map[string]Val, st *State) *Env 
 			if _, ok := env.vars[k]; !ok {
 				env.vars[k] = v
 			}
+		}
+	}
+	// a parameter that the loop reassigns (it has a phi at the loop head): inside the invariant its name means
+	// the current value, like every other loop-carried local; the value at function entry is <name>0.
+	for k, v := range phis {
+		if pv, isParam := env.vars[k]; isParam {
+			if _, taken := env.vars[k+"0"]; !taken {
+				env.vars[k+"0"] = pv
+			}
+			env.vars[k] = v
 		}
 	}
 	env.lookup = func(name string) (Val, bool) {
